@@ -1,9 +1,96 @@
-import GIV.Model.Txtar
+/-
+  C03 — txtar: Parse is total and Format/Parse round-trips.
+
+  Property theorems about the model `GIV.Model.Txtar` (tied to /repo/txtar/archive.go by the
+  correspondence run and by the generated facts in `GIV.Gen.Txtar`).  The proofs are in
+  `GIV/Lemmas/Txtar*.lean`; they go through `markerName_eq`, which is proved by unfolding
+  `Gen.Txtar.lenGuard`, `Gen.Txtar.crAtEOF` and the marker literals, so a change of those facts
+  breaks the theorems below.
+-/
+import GIV.Lemmas.TxtarQuote
+
 namespace GIV.C03
 open GIV GIV.Txtar
 
-theorem fixNL_idem (b : Bytes) : fixNL (fixNL b) = fixNL b := by
-  unfold fixNL
-  split <;> simp_all
+/-! ### vocabulary of the statement -/
+
+/-- A marker line: a line of `splitLines` on which `isMarker` yields a non-empty name. -/
+def IsMarkerLine (l : Line) : Prop := ∃ n, markerName l = some n ∧ n ≠ []
+
+/-- Comment / file contents: empty or newline-terminated, and free of marker lines. -/
+def ContentOK (b : Bytes) : Prop :=
+  (b = [] ∨ b.getLast? = some NL) ∧ ¬ ∃ l ∈ splitLines b, IsMarkerLine l
+
+/-- Well-formed archive, as in the property statement: non-empty trimmed names without newlines;
+contents (and the comment) empty or newline-terminated and free of marker lines. -/
+def WellFormed (a : Archive) : Prop :=
+  ContentOK a.comment ∧
+  ∀ f ∈ a.files, (f.name ≠ [] ∧ trimSpace f.name = f.name ∧ NL ∉ f.name) ∧ ContentOK f.data
+
+theorem wellFormed_iff (a : Archive) : WellFormed a ↔ WF a := Iff.rfl
+
+instance (a : Archive) : Decidable (WellFormed a) := decidable_of_iff _ (wellFormed_iff a).symm
+
+example : WellFormed ⟨lit "c\n", [⟨lit "a b", lit "x\n"⟩, ⟨lit "b", []⟩]⟩ := by decide +kernel
+example : ¬ WellFormed ⟨lit "c\n", [⟨lit "a b", lit "-- x --\n"⟩]⟩ := by decide +kernel
+example : ¬ WellFormed ⟨lit "c", []⟩ := by decide +kernel
+example : ¬ WellFormed ⟨[], [⟨lit " a", []⟩]⟩ := by decide +kernel
+
+/-! ### fixNL -/
+
+theorem fixNL_idem (b : Bytes) : fixNL (fixNL b) = fixNL b := Txtar.fixNL_idem b
+
+example : fixNL (lit "a") = lit "a\n" := by decide +kernel
+
+/-! ### totality -/
+
+/-- `Parse` never panics (uses `Gen.Txtar.lenGuard`: without the length guard `"-- --"` panics). -/
+theorem parse_total : ∀ d, (parse d).isSome := by
+  intro d
+  obtain ⟨a, h⟩ := parseLines_total (splitLines d) []
+  simp [parse, h]
+
+example : parse (lit "-- --") = some ⟨lit "-- --\n", []⟩ := by decide +kernel
+
+/-! ### round trips -/
+
+/-- What `Parse` returns is well-formed. -/
+theorem parse_wellFormed : ∀ d a, parse d = some a → WellFormed a :=
+  fun _ _ h => parse_wf h
+
+/-- `Parse (Format a) = a` for every well-formed archive. -/
+theorem format_parse_wf : ∀ a, WellFormed a → parse (format a) = some a :=
+  fun _ h => parse_format_of_wf h
+
+example : parse (format ⟨lit "c\n", [⟨lit "a b", lit "x\n"⟩, ⟨lit "b", []⟩]⟩)
+    = some ⟨lit "c\n", [⟨lit "a b", lit "x\n"⟩, ⟨lit "b", []⟩]⟩ := by decide +kernel
+
+/-- Re-parse stability: `Parse (Format (Parse d)) = Parse d` (uses `Gen.Txtar.crAtEOF`: a final
+`"-- a --\r"` must be a marker line, because `fixNL` turns it into a CRLF marker line). -/
+theorem parse_format_parse : ∀ d a, parse d = some a → parse (format a) = some a :=
+  fun d a h => format_parse_wf a (parse_wellFormed d a h)
+
+example : parse (lit "-- a --\r") = some ⟨[], [⟨lit "a", []⟩]⟩ := by decide +kernel
+example : parse (lit "x\n-- a --\r\ny") = some ⟨lit "x\n", [⟨lit "a", lit "y\n"⟩]⟩ := by decide +kernel
+
+/-! ### reference definition -/
+
+/-- On input without carriage returns the result is that of golang.org/x/tools/txtar. -/
+theorem parse_agrees_ref : ∀ d, CR ∉ d → parse d = some (refParse d) :=
+  fun _ h => parse_eq_ref h
+
+example : CR ∉ lit "x\n-- a --\ny" := by decide +kernel
+example : refParse (lit "x\n-- a --\ny") = ⟨lit "x\n", [⟨lit "a", lit "y\n"⟩]⟩ := by decide +kernel
+
+/-- A marker line ending in CRLF is recognised exactly like the same line ending in LF: the
+result of `isMarker` on `body ++ "\r\n"` is that on `body ++ "\n"`.  (`body` is the line
+without the `\r`; if `body` itself ended in `\r` the two lines would be `…\r\r\n` and `…\r\n`,
+of which only one `\r` is stripped, hence the side condition.)  The same holds at end of input
+(`nl = false`). -/
+theorem marker_crlf : ∀ (body : Bytes) (nl : Bool), body.getLast? ≠ some CR →
+    markerName ⟨body ++ [CR], nl⟩ = markerName ⟨body, nl⟩ :=
+  fun body nl h => marker_crlf_aux body h nl
+
+example : markerName ⟨lit "-- a --" ++ [CR], true⟩ = some (lit "a") := by decide +kernel
 
 end GIV.C03
